@@ -156,3 +156,12 @@ claim(
     "abstract interpretation with exhaustive path enumeration of symbolic guards; polynomial identity over Q(i); boolean truth table of the occupied-slot mask",
     "DESIGN.md §5 C35",
 )
+
+claim(
+    "C20",
+    "other",
+    "Decides on tanh_projection / smoothed_projection: the three-way select (beta == 0 -> clip(x,0,1); infinite beta -> step 1[x>eta]; else the tanh formula), by interpretation under each assumption on the two predicates of beta and with beta = 0 / inf concretely; the finite branch equals (tanh(b eta)+tanh(b(x-eta)))/(tanh(b eta)+tanh(b(1-eta))) as an identity, fixes 0 and 1, depends on x only through tanh(b(x-eta)) with coefficient 1/divisor and slope b, and the divisor's two tanh arguments are b*eta and b*(1-eta) (positive for b>0, 0<eta<1), hence non-decreasing and [0,1] -> [0,1]; NaN-safety discipline: with beta = 0 and beta = inf every tanh argument the function forms is finite, no division by zero, and the raw infinite beta never enters arithmetic; in smoothed_projection every divisor, sqrt argument and power base is a parameter-derived constant or a jnp.where-sanitised value (syntax-tree rule); the smoothed result is where(mask, smoothed, tanh_projection(rho,beta,eta)) with mask implying a non-zero gradient norm (truth table), a flat field takes the plain branch with finite intermediates. Gradient finiteness beyond that discipline and float overflow are not decided.",
+    TB + "; tanh odd/monotone; jnp.gradient as two opaque arrays; resolution of composite predicates under assumptions",
+    "abstract interpretation under predicate assumptions to rational normal forms; structural monotonicity argument; recorded-call finiteness check; syntax-tree double-where rule; boolean truth table of the interface mask",
+    "DESIGN.md §5 C20",
+)
